@@ -29,7 +29,12 @@ func gConfigs() []gconfig {
 }
 
 func genRandomHistory(r *rt.Rand, n int) []gstep {
+	// up to six groups open at once (the exhaustive alphabet has three ids; a long quiet period lets all of
+	// them expire before the next event)
 	ids := []string{"a", "b", "c"}
+	if r.Intn(3) == 0 {
+		ids = []string{"a", "b", "c", "d", "e", "f"}
+	}
 	var h []gstep
 	for i := 0; i < n; i++ {
 		switch x := r.Intn(100); {
